@@ -10,6 +10,7 @@ import (
 	"encoding/json"
 	"errors"
 	"fmt"
+	"io"
 	"net/http"
 	"reflect"
 	"strings"
@@ -67,7 +68,7 @@ var carriers = []string{"GetBlob", "GetBlobRange", "GetManifest", "GetTag", "Res
 	// errors raised by the backend's BlobWriter rather than by an Interface method ("<call>@<stage>")
 	"Writer@write", "Writer@close", "Writer@commit", "PushBlob@write", "PushBlob@commit", "Writer@write+close",
 	// the error of a method on a registry where everything else works
-	"MountBlob@only", "GetBlobRange@only",
+	"MountBlob@only", "GetBlobRange@only", "GetTag@third-request",
 	// a listing that fails only when the client asks for its second page (page size 2)
 	"Tags@later-page", "Repositories@later-page",
 	// a listing that fails after the first item of a page
@@ -128,6 +129,13 @@ func call(reg ociregistry.Interface, carrier string, hops int) error {
 		return err
 	case "GetManifest":
 		_, err := reg.GetManifest(ctx, "foo", dg)
+		return err
+	case "GetTag@third-request":
+		r, err := reg.GetTag(ctx, "foo", "big")
+		if err == nil {
+			_, err = io.Copy(io.Discard, r)
+			r.Close()
+		}
 		return err
 	case "GetTag":
 		_, err := reg.GetTag(ctx, "foo", "latest")
@@ -245,6 +253,15 @@ func (m *rangeFails) GetBlobRange(ctx context.Context, repo string, dg ociregist
 	return nil, m.err
 }
 
+type manifestFails struct {
+	ociregistry.Interface
+	err error
+}
+
+func (m *manifestFails) GetManifest(ctx context.Context, repo string, dg ociregistry.Digest) (ociregistry.BlobReader, error) {
+	return nil, m.err
+}
+
 type mountFails struct {
 	ociregistry.Interface
 	err error
@@ -342,6 +359,14 @@ func through(s Script, n int) (observed, error) {
 		m := ocimem.New()
 		m.PushBlob(context.Background(), "foo", ociregistry.Descriptor{MediaType: "application/octet-stream", Digest: digest.FromBytes([]byte("x")), Size: 1}, strings.NewReader("x"))
 		reg = &rangeFails{Interface: m, err: before}
+	} else if s.Carrier == "GetTag@third-request" {
+		// a tagged manifest above the client's in-memory threshold on a server that leaves the digest out
+		// of tag answers: the client asks three times, and the registry fails the last one (the GET by digest)
+		m := ocimem.New()
+		if _, err := m.PushManifest(context.Background(), "foo", "big", append([]byte(`{"big":"`), append(bytes.Repeat([]byte("m"), 200<<10), '"', '}')...), "application/vnd.verif.opaque+json"); err != nil {
+			return observed{}, err
+		}
+		reg = &manifestFails{Interface: m, err: before}
 	} else if s.Carrier == "MountBlob@only" {
 		// a registry on which the mount, and nothing but the mount, fails
 		reg = &mountFails{Interface: ocimem.New(), err: before}
@@ -364,7 +389,11 @@ func through(s Script, n int) (observed, error) {
 		}
 	}()
 	for i := 0; i < n; i++ {
-		var handler http.Handler = ociserver.New(reg, nil)
+		var opts *ociserver.Options
+		if i == 0 && s.Carrier == "GetTag@third-request" {
+			opts = &ociserver.Options{OmitDigestFromTagGetResponse: true}
+		}
+		var handler http.Handler = ociserver.New(reg, opts)
 		if s.AuthHop {
 			handler = challenging{handler}
 		}
@@ -647,7 +676,7 @@ func genScript(t *rapid.T) Script {
 var prop = &vt.Prop[Script]{
 	ID:   "C07",
 	Name: "ErrorsAcrossTheWire",
-	Rule: "error values: each of the 15 standard codes, custom codes, no code; optional JSON detail (objects, arrays, scalars, null, spaced, numbers that float64 cannot hold); messages {empty, random UTF-8, beginning with the rendered code, with a status line, with both, stuttering, odd spacing}; 0-3 wrappers from {fmt %w, NewHTTPError(status)} with statuses 400-599 incl. ones without a reason phrase (419, 452, 499, 512, 599); carrier = each of the 18 Interface methods (GET, HEAD, POST, PUT, DELETE and list-based) and errors raised by the backend's BlobWriter at Write, Close or Commit (and at Write followed by a different failure of the Close that comes after it) (reached through a chunked writer and through PushBlob), a MountBlob / a GetBlobRange that fails on a registry where everything else works, and tag / repository listings that fail when the second page is asked for or after the first item of a page; sent through 1..3 real server->client hops (a quarter of the time every client goes through ociauth's standard transport without credentials and every registry puts a Basic challenge on its 401 answers; a quarter of the time a front end declares the JSON answers as application/json; charset=utf-8), and for every hop count h <= hops; oracle = errors.Is against every standard value unchanged (HEAD carriers: the documented status mapping; ErrRangeInvalid status-based as documented), status on every hop = the specification's for the code, else the error's own HTTP status, else 500, code and detail JSON-equal, message after h hops == message after one hop; non-trivial = >= 2 hops, a wrapper, or a prefix-like message; distinct = (code, wraps, message class, carrier, hops, status)",
+	Rule: "error values: each of the 15 standard codes, custom codes, no code; optional JSON detail (objects, arrays, scalars, null, spaced, numbers that float64 cannot hold); messages {empty, random UTF-8, beginning with the rendered code, with a status line, with both, stuttering, odd spacing}; 0-3 wrappers from {fmt %w, NewHTTPError(status)} with statuses 400-599 incl. ones without a reason phrase (419, 452, 499, 512, 599); carrier = each of the 18 Interface methods (GET, HEAD, POST, PUT, DELETE and list-based) and errors raised by the backend's BlobWriter at Write, Close or Commit (and at Write followed by a different failure of the Close that comes after it) (reached through a chunked writer and through PushBlob), a MountBlob / a GetBlobRange that fails on a registry where everything else works, the GET by digest that a GetTag ends in when the server leaves the digest out of the tag answer and the manifest is above 128 KiB, and tag / repository listings that fail when the second page is asked for or after the first item of a page; sent through 1..3 real server->client hops (a quarter of the time every client goes through ociauth's standard transport without credentials and every registry puts a Basic challenge on its 401 answers; a quarter of the time a front end declares the JSON answers as application/json; charset=utf-8), and for every hop count h <= hops; oracle = errors.Is against every standard value unchanged (HEAD carriers: the documented status mapping; ErrRangeInvalid status-based as documented), status on every hop = the specification's for the code, else the error's own HTTP status, else 500, code and detail JSON-equal, message after h hops == message after one hop; non-trivial = >= 2 hops, a wrapper, or a prefix-like message; distinct = (code, wraps, message class, carrier, hops, status)",
 	Gen:  genScript,
 	Run:  run,
 }
@@ -658,7 +687,7 @@ func TestPropErrors(t *testing.T) { vt.Check(t, prop) }
 var propGrid = &vt.Prop[Script]{
 	ID:   "C07",
 	Name: "ErrorGrid",
-	Rule: "complete grid: 15 standard codes + custom + none x 30 carriers x {bare, NewHTTPError(452) wrapper} over 2 hops",
+	Rule: "complete grid: 15 standard codes + custom + none x 31 carriers x {bare, NewHTTPError(452) wrapper} over 2 hops",
 	Run:  run,
 }
 
